@@ -109,6 +109,14 @@ def eval_moved(fam, s):
     cell = 'moved-' + kind
     if isinstance(r, lib.Raised):
         return cell, [Viol('C06|moved|construct|%s|raises:%s' % (kind, r.cls), sc(), 'object', repr(r), '')]
+    if kind == 'polyhedron':
+        # a second body built from the very same face objects must not be affected by moving the first one
+        twin_faces = [ConvexPolygon(tuple(lib.P(p) for p in cyc)) for cyc in faces]
+        b1 = lib.call(lambda: ConvexPolyhedron(tuple(twin_faces)))
+        b2 = lib.call(lambda: ConvexPolyhedron(tuple(twin_faces)))
+        if not isinstance(b1, lib.Raised) and not isinstance(b2, lib.Raised):
+            lib.call(b1.move, lib.V(MOVES[0]))
+            viols += cmp_measures('C06', 'moved', cell + '|twin-built-from-the-same-face-objects', sc, b2, e, what(b2))
     viols += cmp_measures('C06', 'moved', cell + '|before', sc, r, e, what(r))
     for i, v in enumerate(MOVES):
         ret = lib.call(r.move, lib.V(v))
@@ -117,6 +125,23 @@ def eval_moved(fam, s):
             break
         viols += cmp_measures('C06', 'moved', cell + '|receiver-after-move', sc, r, e, what(r))
         viols += cmp_measures('C06', 'moved', cell + '|returned-by-move', sc, ret, e, what(ret))
+        if kind == 'polygon':
+            # the moved polygon used as the base of a pyramid (height / volume go through its plane)
+            tsum = (0, 0, 0)
+            for vv in MOVES[:i + 1]:
+                tsum = X.add(tsum, vv)
+            n = X.clear(X.plane_normal_of(pts))
+            c = X.interior_point(e)
+            apex = X.add(X.add(c, tsum), X.scal(2, n))
+            h = math.sqrt(X.dist2_point_plane(apex, X.Pl(X.add(pts[0], tsum), n)))
+            vol = h * X.f_area(e) / 3
+            for who, base in (('receiver', r), ('returned', ret)):
+                py = lib.call(lambda: Pyramid(base, lib.P(apex), direct_call=False))
+                if isinstance(py, lib.Raised):
+                    viols.append(Viol('C06|moved|pyramid-over-%s|raises:%s' % (who, py.cls), sc(), 'pyramid', repr(py), ''))
+                else:
+                    viols += cmp_measures('C06', 'moved', cell + '|pyramid-over-' + who, sc, py, None,
+                                          [('height', py.height, h), ('volume', py.volume, vol), ('volume()', lambda: volume(py), vol)])
     return cell, viols
 
 
@@ -222,7 +247,7 @@ class Misc(Family):
 def variant_families(tier):
     fams = []
     full_upto = 7 if tier == 'quick' else 8
-    phs = ['tetrahedron', 'pyramid', 'prism', 'box', 'cut-cube', 'octahedron', 'skew-tetra', 'skew-prism'] if tier == 'quick' else list(A.POLYHEDRA)
+    phs = ['tetrahedron', 'pyramid', 'prism', 'box', 'cut-cube', 'octahedron', 'skew-tetra', 'skew-prism', 'unit-cube', 'unit-tetra', 'unit-prism'] if tier == 'quick' else list(A.POLYHEDRA)
     for pose in A.poses(tier):
         for name in A.POLYGONS:
             fams.append(PolygonPerms(name, pose, full_upto if pose.name in ('P0', 'P1') else 6))
